@@ -26,6 +26,8 @@ VOCAB = [
     # backslashes and backticks
     'c:\\dir', '\\n', 'a\\b', '\\1', '`', '``', 'a`b', '`x',
     # runs that mix the two underline characters, or an underline character with others: never a setext underline or a break
+    # digits of other scripts with a dot / parenthesis: no list marker
+    '\u0661.', '\uff11.', '\u0967)', '\u0661\u0662.',
     # delimiter-row look-alikes: no table when the line above has no pipe (one cell against two)
     '-|-', '--|--', ':-|-:', '-|-|-',
     '=-=', '-=-', '=-', '-=', '==-', '--=', '=.=', '-_-', '*-*', '_*_',
@@ -202,7 +204,7 @@ class Prose(HypPart):
 
 
 LETTERS = ['a', 'b', 'x', 'Z', 'Q', 'e', 'i', 'o', 'n', 't', '\u00e9', '\u00fc', '\u00df', '\u03c3', '\u0416', '\u4e2d', '\u3042', '\u05d0', '\u0639']
-DIGITS = '0123456789'
+DIGITS = '0123456789' + '\u0661\u0662\uff11\u0967'      # incl. digits of other scripts: letters to CommonMark, never part of a list marker
 PUNCT = list('_*-+#>=|~^$%@[]{}&<.():;,!?\'"/\\`')
 UPUNCT = ['\u2014', '\u2026', '\u00ab', '\u00bb', '\u00bf', '\u20ac', '\u201c', '\u201d', '\u2019', '\u00a7', '\u00b0', '\u2192', '\u00d7']
 
